@@ -11,6 +11,12 @@
      113 Allocatable = true  => allocated + request <= spec.capability (queue and ancestors)
      114 JobEnqueueable = true => minResources + allocated + inqueue - elastic <= spec.capability
 
+   regression streams (the real reclaim action / vote isolation; the correspondence part only
+   validates the shape of the input, the substance is the law on the observed results)
+     4 / 116   reclaim on hierarchical queues: a placement leaves the leaf and every ancestor within
+               its realCapability; the plugin's ledger equals the recomputed sum (ReclaimLaw.v)
+     5 / 117   a vote changes neither the stored ancestors nor a later vote (AliasModel.v)
+
    wire format of a vote case (sel 2 / 3):
      L  (L tokens: the cluster spec the Go side rebuilt the session from; skipped here)
      eps hier ready
@@ -20,7 +26,7 @@
    output: per phase -101, then per query  -(110 + kind)  answer. *)
 From stdpp Require Import gmap.
 From Coq Require Import ZArith List.
-From V Require Import Base.Codec Base.Res Base.ResCodec Sched.CycleEntry C03.CapacityModel.
+From V Require Import Base.Codec Base.Res Base.ResCodec Sched.CycleEntry C03.CapacityModel C03.ReclaimLaw C03.AliasModel.
 Import ListNotations.
 Open Scope Z_scope.
 
@@ -135,6 +141,10 @@ Definition entry (sel : Z) (toks : list Z) : list Z :=
   | 3 => match run_dec dVoteCase toks with
          | Some (eps, _, _, ps) => run_votes (answer_prop eps) ps
          | None => bad_input end
+  | 4 => eBool (Nat.eqb (length toks) 8)
+  | 5 => eBool (Nat.eqb (length toks) 5)
+  | 116 => match law_reclaim toks with Some b => eBool b | None => bad_input end
+  | 117 => match law_alias toks with Some b => eBool b | None => bad_input end
   | 110 => law_entry law_110 toks
   | 111 => law_entry law_111 toks
   | 112 => law_entry law_112 toks
